@@ -3,6 +3,7 @@
 PFX="$1"; LA="$2"; LB="$3"; TAG="$4"
 for d in ${PFX}C*/; do
   id=$(basename $d | sed 's/.*_//')
+  [ -n "${ONLY:-}" ] && ! echo " $ONLY " | grep -q " $id " && continue
   out=$d/_out
   [ -f $out/A.md ] && [ -f $out/B.md ] || [ -f $out/A.diff -a -f $out/B.diff -a ! -d /proc/self/nonexistent ] || continue
   [ -f $out/A.diff ] || continue
